@@ -1124,12 +1124,12 @@ package keyvalue
 //@ spec infoIsDir(info hackpadfs.FileInfo) := rawMode(infoOf(info).Record) & hackpadfs.ModeDir != 0
 
 //@ func isMissingDir(path string, info hackpadfs.FileInfo, err error) (missing bool, returnedErr error)
-//@   props C01 C03 C05
+//@   props C01 C03 C05 C14
 //@   dispatch hackpadfs.FileInfo fileInfo
 //@   dispatch FileRecord mem.fileRecord *BaseFileRecord
 //@   requires implies(err == nil, isType(info, fileInfo) && infoOf(info).Record != nil && implies(isBaseRec(infoOf(info).Record), infoOf(info).Record.(*BaseFileRecord) != nil))
 //@   ensures "missing" implies(errIs(err, hackpadfs.ErrNotExist), missing && returnedErr == nil)
-//@   ensures "error" implies(err != nil && !errIs(err, hackpadfs.ErrNotExist), !missing && returnedErr == err)
+//@   ensures "error" [C14 C05] implies(err != nil && !errIs(err, hackpadfs.ErrNotExist), !missing && returnedErr == err)
 //@   ensures "dir" implies(err == nil && infoIsDir(info), !missing && returnedErr == nil)
 //@   ensures "file" implies(err == nil && !infoIsDir(info), missing && pathErr(returnedErr, "mkdir", path) && errIs(returnedErr, hackpadfs.ErrNotDir) && innerErr(returnedErr) == hackpadfs.ErrNotDir)
 //@   pure
